@@ -254,3 +254,46 @@ def run(chk):
            key='C08-A|push-source')
     chk.assume('narrow claim: these are necessary conditions of a sound search; that the tree is the one the structure '
                'prescribes is a run-time result and is not decided')
+
+    # ---- G: group finding is actually in force on the element-side entry point
+    chk.rule('C08-G', 'Message.parse_children hands the text to Group.parse_children only for a message whose structure is '
+                      'known: on the unnamed-message path the structure is adopted (_find_structure) before parsing; '
+                      'Group.parse_children silently parses flat (find_groups=False) when self.reference is missing')
+    from ..cfg import ENTRY
+    gp = ix.func('core.Group.parse_children')
+    fallback = any(isinstance(n, ast.ExceptHandler) and n.type is not None and 'AttributeError' in norm(n.type) and
+                   any(isinstance(x, ast.Constant) and x.value is False for x in ast.walk(n)) for n in own_nodes(gp.node))
+    chk.count('Group.parse_children has the silent flat-parse fallback', int(fallback))
+    mp = ix.func('core.Message.parse_children')
+    g = cfg_of(mp)
+    sup = [n for n in own_nodes(mp.node) if isinstance(n, ast.Call) and isinstance(n.func, ast.Attribute) and
+           n.func.attr == 'parse_children' and norm(n.func.value).startswith(('super(', 'Group'))]
+    adopt = [n for n in own_nodes(mp.node) if isinstance(n, ast.Call) and isinstance(n.func, ast.Attribute) and
+             n.func.attr == '_find_structure' and norm(n.func.value) == 'self']
+    if not sup:
+        raise AnalysisError('Message.parse_children: the delegation to Group.parse_children was not recognised')
+    if not fallback:
+        chk.ok('C08-G', 'Message.parse_children adopts the structure before parsing',
+               'Group.parse_children no longer falls back silently; nothing to require', mp.loc, key='C08-G|adopt')
+    else:
+        adopt_nodes = {g.node_for(n) for n in adopt}
+
+        def labels_ok(src, dst, lab):
+            if lab == 'exc':
+                return False
+            nd = g.nodes[src]
+            if nd.kind == 'test':
+                t = norm(nd.ast)
+                if t == 'self.is_unknown()' and lab == 'false':
+                    return False
+                if t in ('not self.is_unknown()', 'self.name is not None', 'self.name') and lab == 'true':
+                    return False
+                if t == 'self.name is None' and lab == 'false':
+                    return False
+            return True
+        reach = g.reach(ENTRY, avoid=adopt_nodes, labels_ok=labels_ok)
+        bad = [s for s in sup if g.node_for(s) in reach]
+        chk.ob('C08-G', 'Message.parse_children adopts the structure before parsing', not bad,
+               'the text of a still unnamed message reaches Group.parse_children before _find_structure(): self.reference '
+               'does not exist yet, the AttributeError fallback parses with find_groups=False and every segment is attached '
+               'directly under the message', '%s:%d' % (mp.module.relpath, (bad or sup)[0].lineno), key='C08-G|adopt')
